@@ -132,6 +132,7 @@ package spg
 //@        clen(res) == csum(arr(p.tokens), off(p.tokens), len(p.tokens)) &&
 //@        forall(int(j), trig(p.tokens[j]), 0 <= j && j < len(p.tokens) ==>
 //@               seg(res, csum(arr(p.tokens), off(p.tokens), j), csum(arr(p.tokens), off(p.tokens), j+1)) == p.tokens[j].value)
+//@   loop 1 invariant [C05] bound: 0 <= it && it <= len(p.tokens)
 //@   loop 1 invariant [C05] cat: pw == catTok(arr(p.tokens), off(p.tokens), it)
 //@   loop 1 invariant [C11] segs: allutf8(arr(p.tokens), off(p.tokens), len(p.tokens)) ==> utf8ok(pw) &&
 //@        clen(pw) == csum(arr(p.tokens), off(p.tokens), it) &&
